@@ -11,7 +11,7 @@ Model of how the runtime side of NRI admits an external plugin (property C17):
                           `r.plugins`  (pkg/adaptation/adaptation.go `acceptPluginConnections`),
   * `acceptAll`         – the loop itself, one connection after the other,
   * `recipients`        – which active plugins an event is relayed to (`p.events.IsSet`),
-  * `mkdirMode`, `startListener` – `os.MkdirAll(filepath.Dir(socketPath), 0700)` and the
+  * `mkdirMode`, `mkdirAll`, `startListener` – `os.MkdirAll(filepath.Dir(socketPath), 0700)` and the
                           `dontListen` switch (adaptation.go `startListener`).
 
 Time is a natural number of abstract ticks. A plugin's behaviour says at which tick (counted
@@ -222,20 +222,21 @@ def recipients (s : State) (e : EventNo) : List Nat :=
 /-- permission bits of a file mode (rwx for user, group, other + setuid/setgid/sticky) -/
 abbrev Mode := BitVec 12
 
-/-- the mode `mkdir(2)` gives a directory requested with 0700 under `umask` -/
-def mkdirMode (umask : Mode) : Mode := 0o700#12 &&& ~~~umask
+/-- the mode `mkdir(2)` gives a directory requested with 0700 under `umask` inside a
+    directory of mode `parent` (Linux: the set-group-ID bit of the parent is inherited) -/
+def mkdirMode (umask parent : Mode) : Mode := (0o700#12 &&& ~~~umask) ||| (parent &&& 0o2000#12)
 
-/-- `os.MkdirAll(dir, 0700)` over the chain of path components of `dir`: `some m` is a
-    directory that exists already (with mode `m`, left alone), `none` one that is missing
-    (created). The result is the mode of every component afterwards. -/
-def mkdirAll (umask : Mode) (chain : List (Option Mode)) : List Mode :=
-  chain.map fun
-    | some m => m
-    | none => mkdirMode umask
+/-- `os.MkdirAll(dir, 0700)` over the chain of path components of `dir` below a directory of
+    mode `parent`: `some m` is a component that exists already (with mode `m`, left alone),
+    `none` one that is missing (created). The result is the mode of every component afterwards. -/
+def mkdirAll (umask : Mode) : Mode → List (Option Mode) → List Mode
+  | _, [] => []
+  | _, some m :: rest => m :: mkdirAll umask m rest
+  | parent, none :: rest => mkdirMode umask parent :: mkdirAll umask (mkdirMode umask parent) rest
 
 /-- `startListener`: `none` = nothing is created and no socket is served
     (`WithDisabledExternalConnections`) -/
-def startListener (dontListen : Bool) (umask : Mode) (chain : List (Option Mode)) : Option (List Mode) :=
-  if dontListen then none else some (mkdirAll umask chain)
+def startListener (dontListen : Bool) (umask parent : Mode) (chain : List (Option Mode)) : Option (List Mode) :=
+  if dontListen then none else some (mkdirAll umask parent chain)
 
 end Nri.Registration
